@@ -1,12 +1,12 @@
 /-
-Spec/ByteLayout.lean — bytes ↔ tokens for the sublanguage "message set of uncompressed v2 record batches, not
-truncated" (core Lean only).
+Spec/ByteLayout.lean — bytes ↔ tokens (core Lean only).
 
-`encSetV2` is the reference encoder (Spec/RecordBatch.lean `encFrame`, `encRecs`: the published record-batch format);
-`tokenizeSet` reads bytes back into the token stream of Model/MessageSetReader.lean.  `Lemmas/ByteLayout.lean` proves
-`tokenizeSet (encSetV2 bs) = allTokens (layoutOf bs)`, so `single_fetch` can be stated about bytes for this
-sublanguage (Props/C02 `single_fetch_bytes`).  Truncated sets, compressed payloads and v0/v1 stay tied by the
-byte-level correspondence of the driver only.
+`encSetV2` … are the reference encoders (Spec/RecordBatch.lean: the published record-batch / message-set formats);
+`tokenize` reads a possibly truncated byte string back into the token stream of Model/MessageSetReader.lean the way
+the Go decoder walks it: fixed-size headers are read when all their bytes are there, a record when its length prefix
+and body are there, otherwise the rest is `cut`.  Checksums are not looked at (the Go decoder does not either).
+`Lemmas/ByteLayout.lean` proves `tokenize (take n (enc layout)) = truncate (tokens layout) n`, so that
+`single_fetch` can be stated about bytes (Props/C02 `single_fetch_bytes`).
 -/
 import KafkaVerif.Spec.RecordBatch
 import KafkaVerif.Spec.Layout
@@ -14,7 +14,181 @@ import KafkaVerif.Spec.Layout
 namespace KV.C02
 open KV KV.RW KV.Spec.RB
 
-/-- an uncompressed v2 batch at byte level: header fields (payload/count fields of `hdr` are ignored) and records -/
+/-- the fields of a v2 batch header the decoder uses -/
+structure H2 where
+  base : Int
+  lod : Int
+  firstTs : Int
+  count : Int
+  attrs : Int
+  plen : Nat
+  deriving DecidableEq, Repr
+
+/-- the 61 header bytes of a v2 batch: everything of `encFrame` before the payload; `crcv` is the checksum field -/
+def encH2 (crcv : Nat) (f : FrameV2) : Bytes :=
+  i64 f.baseOffset ++ (i32 ((9 + (frameBody f).length : Nat) : Int) ++ (i32 f.leaderEpoch ++ (i8 2 ++ (u32 crcv ++
+    (i16 f.attributes ++ (i32 f.lastOffsetDelta ++ (i64 f.firstTs ++ (i64 f.maxTs ++ (i64 f.producerId ++
+    (i16 f.producerEpoch ++ (i32 f.baseSeq ++ i32 f.count)))))))))))
+
+/-- message_reader.go readHeader, `case 2` -/
+def readH2 (bs : Bytes) : Option (H2 × Bytes) :=
+  match readI64 bs with
+  | none => none
+  | some (base, r1) =>
+  match readI32 r1 with
+  | none => none
+  | some (len, r2) =>
+  match readI32 r2 with
+  | none => none
+  | some (_, r3) =>
+  match readI8 r3 with
+  | none => none
+  | some (magic, r4) =>
+  match readU32 r4 with
+  | none => none
+  | some (_, r5) =>
+  match readI16 r5 with
+  | none => none
+  | some (attrs, r6) =>
+  match readI32 r6 with
+  | none => none
+  | some (lod, r7) =>
+  match readI64 r7 with
+  | none => none
+  | some (fts, r8) =>
+  match readI64 r8 with
+  | none => none
+  | some (_, r9) =>
+  match readI64 r9 with
+  | none => none
+  | some (_, r10) =>
+  match readI16 r10 with
+  | none => none
+  | some (_, r11) =>
+  match readI32 r11 with
+  | none => none
+  | some (_, r12) =>
+  match readI32 r12 with
+  | none => none
+  | some (cnt, r13) =>
+    if magic ≠ 2 then none else some (⟨base, lod, fts, cnt, attrs, (len - 49).toNat⟩, r13)
+
+/-- the fields of a v0/v1 message header the decoder uses; `bodyLen` = bytes of key and value that follow -/
+structure H1 where
+  off : Int
+  magic : Int
+  attrs : Int
+  bodyLen : Nat
+  deriving DecidableEq, Repr
+
+/-- the 18 / 26 header bytes of a v0/v1 message: everything of `encMsg` before the key -/
+def encH1 (crcv : Nat) (m : Msg) : Bytes :=
+  i64 m.offset ++ (i32 ((4 + (msgBody m).length : Nat) : Int) ++ (u32 crcv ++ (i8 m.magic ++ (i8 m.attributes ++
+    (if m.magic = 0 then [] else i64 m.ts)))))
+
+/-- key and value of a v0/v1 message -/
+def encB1 (m : Msg) : Bytes := nbytes m.key ++ nbytes m.value
+
+/-- message_reader.go readHeader, `case 0` / `case 1` -/
+def readH1 (bs : Bytes) : Option (H1 × Bytes) :=
+  match readI64 bs with
+  | none => none
+  | some (off, r1) =>
+  match readI32 r1 with
+  | none => none
+  | some (size, r2) =>
+  match readU32 r2 with
+  | none => none
+  | some (_, r3) =>
+  match readI8 r3 with
+  | none => none
+  | some (magic, r4) =>
+  match readI8 r4 with
+  | none => none
+  | some (attrs, r5) =>
+    if magic = 0 then some (⟨off, 0, attrs, (size - 6).toNat⟩, r5)
+    else if magic = 1 then
+      match readI64 r5 with
+      | none => none
+      | some (_, r6) => some (⟨off, 1, attrs, (size - 14).toNat⟩, r6)
+    else none
+
+/-- inner messages of a wrapper: all entries must be v0/v1 messages -/
+def msgsOf : List Entry → Option (List Msg)
+  | [] => some []
+  | .msg m :: es => (msgsOf es).map (m :: ·)
+  | .batch _ :: _ => none
+
+/-- what the pending read of the decoder expects next -/
+inductive TS
+  | hdr
+  | recs (h : H2) (k : Nat)
+  | payload (h : H2)
+  | body (hb : Bytes) (h : H1)
+  deriving Repr
+
+/-- parameters of the tokenizer: checksum of v0/v1 messages (only used to re-read complete messages with the reference
+reader), decompression by codec number, digests of the observable fields of a v2 record (given the batch's first
+timestamp) and of a v0/v1 message -/
+structure TokCfg where
+  crcs : Crcs
+  dec : Int → Bytes → Option Bytes
+  dg2 : Int → RecV2 → Nat
+  dg1 : Msg → Nat
+
+/-- bytes → tokens -/
+def tokenize (c : TokCfg) : Nat → TS → Bytes → List Tok
+  | 0, _, _ => []
+  | fuel + 1, st, bs =>
+    if bs.isEmpty then []
+    else match st with
+      | .hdr =>
+        match magicOf bs with
+        | none => [.cut]
+        | some mg =>
+          if mg = 2 then
+            if bs.length < 61 then [.cut]
+            else match readH2 bs with
+              | none => [.cut]
+              | some (h, rest) =>
+                Tok.h2 h.base h.lod h.count.toNat (h.attrs % 8 != 0) h.plen ::
+                  tokenize c fuel (if h.attrs % 8 != 0 then .payload h
+                                   else if h.count.toNat = 0 then .hdr else .recs h h.count.toNat) rest
+          else
+            if bs.length < (if mg = 1 then 26 else 18) then [.cut]
+            else match readH1 bs with
+              | none => [.cut]
+              | some (h, rest) =>
+                Tok.h1 h.magic.toNat h.off (h.attrs % 8 != 0) ::
+                  tokenize c fuel (.body (bs.take (bs.length - rest.length)) h) rest
+      | .recs h k =>
+        match readRec bs with
+        | none => [.cut]
+        | some (r, rest) =>
+          Tok.r2 r.offDelta (c.dg2 h.firstTs r) (bs.length - rest.length) ::
+            tokenize c fuel (if k ≤ 1 then .hdr else .recs h (k - 1)) rest
+      | .payload h =>
+        -- readMessageV2: `batchRemain > r.remain` → errShortRead; else decompress the whole payload
+        if bs.length < h.plen then [.cut]
+        else match (c.dec (h.attrs % 8) (bs.take h.plen)).bind (decodeRecs h.count) with
+          | none => [.cut]
+          | some recs =>
+            Tok.z2 h.plen (recs.map fun r => (r.offDelta, c.dg2 h.firstTs r, (encRec r).length)) ::
+              tokenize c fuel .hdr (bs.drop h.plen)
+      | .body hb h =>
+        if bs.length < h.bodyLen then [.cut]
+        else match readMsg c.crcs.ieee (hb ++ bs.take h.bodyLen) with
+          | some (m, []) =>
+            if h.attrs % 8 = 0 then Tok.kv (c.dg1 m) h.bodyLen :: tokenize c fuel .hdr (bs.drop h.bodyLen)
+            else match ((m.value.bind (c.dec (h.attrs % 8))).bind (decodeSet c.crcs)).bind msgsOf with
+              | none => [.cut]
+              | some inner =>
+                Tok.zv h.bodyLen (inner.map fun x => (x.offset, c.dg1 x)) :: tokenize c fuel .hdr (bs.drop h.bodyLen)
+          | _ => [.cut]
+
+/-! ### the layouts the reference encoder can emit -/
+
+/-- an uncompressed v2 batch at byte level: header fields (attributes/count/payload of `hdr` are ignored) and records -/
 structure BBatch where
   hdr : FrameV2
   recs : List RecV2
@@ -22,38 +196,65 @@ structure BBatch where
 def BBatch.frame (b : BBatch) : FrameV2 :=
   { b.hdr with attributes := 0, count := (b.recs.length : Int), payload := encRecs b.recs }
 
-/-- the item of Spec/Layout.lean a batch stands for; `dg` digests the observable fields of a record -/
-def BBatch.item (dg : FrameV2 → RecV2 → Nat) (b : BBatch) : Item :=
+/-- the item of Spec/Layout.lean a batch stands for -/
+def BBatch.item (dg2 : Int → RecV2 → Nat) (b : BBatch) : Item :=
   .b2 b.hdr.baseOffset (b.hdr.baseOffset + b.hdr.lastOffsetDelta) false (encRecs b.recs).length
-    (b.recs.map fun r => (r.offDelta, dg b.frame r, (encRec r).length))
+    (b.recs.map fun r => (r.offDelta, dg2 b.hdr.firstTs r, (encRec r).length))
 
 def encSetV2 (crc : Bytes → Nat) : List BBatch → Bytes
   | [] => []
   | b :: bs => encFrame crc b.frame ++ encSetV2 crc bs
 
-def layoutOf (dg : FrameV2 → RecV2 → Nat) (bs : List BBatch) : List Item := bs.map (BBatch.item dg)
+def layoutOf (dg2 : Int → RecV2 → Nat) (bs : List BBatch) : List Item := bs.map (BBatch.item dg2)
 
-/-- one batch from bytes: the header token and one token per record -/
-def tokenizeFrame (crc : Bytes → Nat) (dg : FrameV2 → RecV2 → Nat) (bs : Bytes) : Option (List Tok × Bytes) :=
-  match readFrame crc bs with
-  | none => none
-  | some (f, rest) =>
-    if codecOf f.attributes ≠ 0 then none
-    else match decodeRecs f.count f.payload with
-      | none => none
-      | some recs =>
-        some (Tok.h2 f.baseOffset f.lastOffsetDelta recs.length false f.payload.length ::
-              recs.map (fun r => Tok.r2 r.offDelta (dg f r) (encRec r).length), rest)
+/-- everything the reference encoder can emit into a message set -/
+inductive BItem
+  /-- uncompressed v2 batch -/
+  | plain2 (b : BBatch)
+  /-- v2 batch whose records are compressed with `codec` -/
+  | comp2 (hdr : FrameV2) (codec : Int) (recs : List RecV2)
+  /-- uncompressed v0/v1 message -/
+  | msg (m : Msg)
+  /-- v0/v1 wrapper message: null key, value = the inner message set compressed with `codec` -/
+  | wrap (m : Msg) (codec : Int) (inner : List Msg)
 
-def tokenizeSet (crc : Bytes → Nat) (dg : FrameV2 → RecV2 → Nat) : Nat → Bytes → Option (List Tok)
-  | _, [] => some []
-  | 0, _ :: _ => none
-  | fuel + 1, bs =>
-    match tokenizeFrame crc dg bs with
-    | none => none
-    | some (ts, rest) =>
-      match tokenizeSet crc dg fuel rest with
-      | none => none
-      | some ts' => some (ts ++ ts')
+def encMsgs (crc : Bytes → Nat) : List Msg → Bytes
+  | [] => []
+  | m :: ms => encMsg crc m ++ encMsgs crc ms
+
+def comp2Frame (enc : Int → Bytes → Bytes) (hdr : FrameV2) (codec : Int) (recs : List RecV2) : FrameV2 :=
+  { hdr with attributes := codec, count := (recs.length : Int), payload := enc codec (encRecs recs) }
+
+def wrapMsg (enc : Int → Bytes → Bytes) (crc : Bytes → Nat) (m : Msg) (codec : Int) (inner : List Msg) : Msg :=
+  { m with attributes := codec, key := none, value := some (enc codec (encMsgs crc inner)) }
+
+def BItem.bytes (c : TokCfg) (enc : Int → Bytes → Bytes) : BItem → Bytes
+  | .plain2 b => encFrame c.crcs.castagnoli b.frame
+  | .comp2 hdr codec recs => encFrame c.crcs.castagnoli (comp2Frame enc hdr codec recs)
+  | .msg m => encMsg c.crcs.ieee m
+  | .wrap m codec inner => encMsg c.crcs.ieee (wrapMsg enc c.crcs.ieee m codec inner)
+
+def BItem.item (c : TokCfg) (enc : Int → Bytes → Bytes) : BItem → Item
+  | .plain2 b => b.item c.dg2
+  | .comp2 hdr codec recs =>
+    .b2 hdr.baseOffset (hdr.baseOffset + hdr.lastOffsetDelta) true (enc codec (encRecs recs)).length
+      (recs.map fun r => (r.offDelta, c.dg2 hdr.firstTs r, (encRec r).length))
+  | .msg m => .m m.magic.toNat m.offset (c.dg1 m) (encMsg c.crcs.ieee m).length
+  | .wrap m codec inner =>
+    .w m.magic.toNat m.offset (encMsg c.crcs.ieee (wrapMsg enc c.crcs.ieee m codec inner)).length
+      (inner.map fun x => (x.offset, c.dg1 x))
+
+def BItem.WF (c : TokCfg) (enc : Int → Bytes → Bytes) : BItem → Prop
+  | .plain2 b => b.frame.WF
+  | .comp2 hdr codec recs => (comp2Frame enc hdr codec recs).WF ∧ 0 < codec ∧ codec < 8 ∧ recs ≠ []
+  | .msg m => m.WF ∧ m.attributes % 8 = 0
+  | .wrap m codec inner =>
+    (wrapMsg enc c.crcs.ieee m codec inner).WF ∧ 0 < codec ∧ codec < 8 ∧ (∀ x ∈ inner, x.WF)
+
+def encItems (c : TokCfg) (enc : Int → Bytes → Bytes) : List BItem → Bytes
+  | [] => []
+  | it :: its => it.bytes c enc ++ encItems c enc its
+
+def layoutOfItems (c : TokCfg) (enc : Int → Bytes → Bytes) (its : List BItem) : List Item := its.map (BItem.item c enc)
 
 end KV.C02
